@@ -84,8 +84,8 @@ func (fr *Frame) builtin(b *ssa.Builtin, cc *ssa.CallCommon, pos token.Pos) Val 
 	case "clear":
 		x := arg(0)
 		if mt, ok := types.Unalias(cc.Args[0].Type()).Underlying().(*types.Map); ok {
-			ks, vs := fr.mapSorts(mt)
-			dn := mapDomComp(ks, vs)
+			ks, _ := fr.mapSorts(mt)
+			dn := mapDomComp(mt)
 			domAll := h.Get(fr.st, dn, ArraySort(SInt, ArraySort(ks, SBool)))
 			empty := T(fmt.Sprintf("((as const %s) false)", ArraySort(ks, SBool)), ArraySort(ks, SBool))
 			h.Set(fr.st, dn, fr.define("h", Ite(Eq(x, Nil), domAll, Store(domAll, x, empty))))
@@ -121,7 +121,7 @@ func (fr *Frame) builtinAppend(cc *ssa.CallCommon, pos token.Pos) Val {
 	st := types.Unalias(cc.Args[0].Type()).Underlying().(*types.Slice)
 	es := fr.R.TM.SortOf(st.Elem())
 	rowSort := ArraySort(SInt, es)
-	name := elemsComp(es)
+	name := elemsComp(st.Elem())
 	E := h.Get(fr.st, name, ArraySort(SInt, rowSort))
 	t := fr.termOf(fr.val(cc.Args[1]))
 	sArr, sOff, sLen, sCap := app(SInt, "s-arr", s), app(SInt, "s-off", s), app(SInt, "s-len", s), app(SInt, "s-cap", s)
@@ -179,6 +179,24 @@ func (fr *Frame) builtinAppend(cc *ssa.CallCommon, pos token.Pos) Val {
 				i, sLen.S, i, i, newLen.S, row2.S, i, tRow.S, i, sLen.S, tOff.S, row2.S, i), SBool))
 		}
 	}
+	if es == SSlice {
+		// sums of element lengths: the in-place row agrees with the old one on the old window, the reallocated row
+		// is a copy of it, and the appended elements extend the window
+		fr.R.Trusted["axioms of sumlen (sum of element lengths over a window): non-negative, empty window is 0, split, one-element update"] = true
+		oldSum := app(SInt, "sumlen", rowS, sOff, start)
+		var added Term
+		if single {
+			added = app(SInt, "s-len", elem)
+		} else if tRow.S != "" {
+			added = app(SInt, "sumlen", tRow, tOff, Add(tOff, n))
+		}
+		if added.S != "" {
+			rin := sc.Define("row", rowIn)
+			sc.Assume(Eq(app(SInt, "sumlen", rin, sOff, Add(start, n)), Add(oldSum, added)))
+			sc.Assume(Eq(app(SInt, "sumlen", row2, IntLit(0), newLen), Add(oldSum, added)))
+			rowIn = rin
+		}
+	}
 	c2 := sc.FreshConst("ap.cap", SInt)
 	sc.Assume(Le(newLen, c2))
 	res := fr.define("ap", Ite(fits, app(SSlice, "mk-slice", sArr, sOff, newLen, sCap), app(SSlice, "mk-slice", a2, IntLit(0), newLen, c2)))
@@ -195,7 +213,7 @@ func (fr *Frame) builtinCopy(cc *ssa.CallCommon, pos token.Pos) Val {
 	st := types.Unalias(cc.Args[0].Type()).Underlying().(*types.Slice)
 	es := fr.R.TM.SortOf(st.Elem())
 	rowSort := ArraySort(SInt, es)
-	name := elemsComp(es)
+	name := elemsComp(st.Elem())
 	E := h.Get(fr.st, name, ArraySort(SInt, rowSort))
 	dLen := app(SInt, "s-len", d)
 	var sLen Term
